@@ -105,10 +105,12 @@ def k_pdu(ctx, kind, cfg, p, model_fed=False, via="ctor", seed=0):
         ok, pdu = attempt(C.build, kind, cfg, p)
     if not ctx.check("pdu.construct", ok, "raised", f"{kind}/" + (exc_sig(pdu) if not ok else ""), case, error=repr(pdu)):
         return
+    okb, before = attempt(lambda: (pdu.packet_len, pdu.pdu_header.pdu_data_field_len))           # read before pack(): setters keep them right on their own
     ok, raw = attempt(pdu.pack)
     if not ctx.check("pdu.pack", ok, "raised", f"{kind}/" + (exc_sig(raw) if not ok else ""), case, error=repr(raw)):
         return
     raw = bytes(raw)
+    ctx.check("pdu.len", okb and before == (len(want), len(want) - R.header_len(cfg["idw"], cfg["seqw"])), "length_reported_before_packing", feat, case, observed=repr(before), expected=len(want))
     if not ctx.check("pdu.pack", raw == want, "octets", f"{feat}/{_where(kind, cfg, p, raw, want)}", case,
                      expected=want[:96], observed=raw[:96]):
         return
